@@ -241,6 +241,7 @@ package tss
 //@   requires [sender-known] from != nil
 //@   ensures result1 != nil ==> isnil(result0)
 //@   ensures [C08.parsed-message-carries-transport-facts] result1 == nil ==> (istype(result0, "*tss.MessageImpl") && cast(result0, "*tss.MessageImpl").MessageRouting.From == from && cast(result0, "*tss.MessageImpl").MessageRouting.IsBroadcast == isBroadcast && cast(result0, "*tss.MessageImpl").wire != nil && cast(result0, "*tss.MessageImpl").wire.IsBroadcast == isBroadcast && !isnil(cast(result0, "*tss.MessageImpl").content))
+//@   assume-ensures [A-msgimpl] result1 == nil ==> (msgfrom(result0) == from && msgbcast(result0) == isBroadcast)
 
 // ----- party.go: the party engine -----
 // Ghost state (prelude/macros.spec): plocked(p) the party mutex is held by the
